@@ -8,3 +8,4 @@ import Argot.Props.C03
 import Argot.Props.C08
 import Argot.Props.C11
 import Argot.Props.C04
+import Argot.Props.C12
